@@ -295,9 +295,10 @@ func init() {
 			}
 		}
 		r.Bound = map[string]interface{}{"tables": len(tables), "distinct_rows": nrows, "max_rows": 4, "limits": limits, "order_by_forms": len(orders), "modes": c05Modes, "cases": len(cases)}
-		r.Rule = "LIMIT n (n=0..4) x ORDER BY {none, a, a DESC, b DESC+a} x every multiset of <=4 rows over 3 (4) distinct rows (duplicates straddle the cut) x {top level, inside a FROM subquery, over a counting-triggered GROUP BY that emits retractions, the latter again inside a FROM subquery} x all five output modes, plus a 130-line JSON source (three parser batches) with limits around the batch boundaries, through the real root command in-process; each mode's output is parsed (final table frame, csv, json, consolidated native stream) and compared with the reference; non-trivial = case where the limit actually cuts rows"
+		r.Rule = "LIMIT n (n=0..4) x ORDER BY {none, a, a DESC, b DESC+a} x every multiset of <=4 rows over 3 (4) distinct rows (duplicates straddle the cut) x {top level, inside a FROM subquery, over a counting-triggered GROUP BY that emits retractions, the latter again inside a FROM subquery} x all five output modes, plus a 130-line JSON source (three parser batches) with limits around the batch boundaries, plus LIMIT n above streaming subqueries (range [LIMIT m] -> max_diff_watermark -> tumble -> GROUP BY with ON WATERMARK / default / combined triggers; differential: exactly min(n, rows without the LIMIT) rows, all of them rows of the unlimited query), through the real root command in-process; each mode's output is parsed (final table frame, csv, json, consolidated native stream) and compared with the reference; non-trivial = case where the limit actually cuts rows"
 		r.Assume("values are short, comma/quote free Int/String/NULL so every format parses unambiguously", "tie order unspecified; a tie group split by the cut may contribute any of its members", "LIMIT without ORDER BY: any min(n,N) rows")
 		cache := newFPCache()
+		c05StreamingLimits(r, pool)
 		enum.Parallel(len(cases), func(i int) {
 			if r.TimeUp() {
 				return
